@@ -83,6 +83,14 @@ def enumerate_cases(tier, scope):
     strict_tree = pm.ns({'a': pm.port(required=False), 'b': pm.port(required=True, valid_type='int'), 'sub': pm.ns({'q': pm.port(required=False)}, dynamic=True)}, dynamic=True)
     for emissions in ([['a', None], ['b', 1]], [['b', 1], ['sub.q', None]], [['b', 1], ['sub', {'q': None}]], [['b', 1], ['a', 0]], [['b', 1], ['dyn', None]], [['b', 1], ['sub.dyn', None]], [['b', None]], [['b', 1], ['sub.d1.x', None]], [['b', 1], ['sub.d1.d2.x', None]], [['b', 1], ['sub.d1.d2.x', 3]], [['b', 1], ['new.deep.er', None]]):
         yield {'spec': strict_tree, 'emissions': emissions, 'ret': 0, 'strict_ports': True}
+    # a namespace created on the fly (by an emission that is then refused, or that is fine) takes over every option of the
+    # namespace that creates it - `required` too: left empty, a namespace under an optional host does not count at the end
+    for req in (True, False):
+        for vd in (None, 'has_a'):
+            for vt in (None, 'int'):
+                tree = pm.ns({'opt': pm.ns({}, dynamic=True, required=req, valid_type=vt, validator=vd), 'b': pm.port(required=False)})
+                for emissions in ([['opt.a', 1], ['opt.sub.x', 's']], [['opt.a', 1], ['opt.sub.a', 2]], [['opt.a', 1], ['opt.sub.deep.x', 's']], [['opt.sub.x', 's'], ['opt.a', 1]], [['opt.sub.x', 's']], [['opt.a', 1], ['opt.sub.x', 's'], ['opt.sub.a', 3]], [['b', 1], ['opt.sub.x', 's']]):
+                    yield {'spec': tree, 'emissions': emissions, 'ret': 0}
     # output namespaces declared with a nested name through create_port_namespace(): the options belong to the
     # terminal namespace, parents that did not exist take the defaults
     for sub in shapes:
